@@ -177,6 +177,16 @@ def _work(task):
     return acc
 
 
+
+def _disturb_task(_):
+    from ..explore import disturb
+
+    acc = Acc()
+    acc.count("disturbance_rounds", 7)
+    for core, detail in disturb.differential('token-streams', disturb.token_battery):
+        acc.violation(core, {"disturb": True}, detail)
+    return acc
+
 def run(tier, seed):
     N = BOUND[tier]
     tasks = G.tasks(len(ALPHABET), N, parts_per_len=128)
@@ -199,6 +209,7 @@ def run(tier, seed):
         ht = [(s2[i::64], s2) for i in range(64)]
     acc.merge(merge_all(par.pmap(_work_hist, ht)))
     total = sum(len(ALPHABET) ** n for n in range(0, N + 1))
+    acc.merge(par.run_fresh(_disturb_task, None))  # differential: a fixed battery before / after unrelated calls
     cov = {
         "evaluations": acc.n["runs"],
         "distinct_nontrivial": acc.n["multi_token"],
@@ -215,6 +226,9 @@ def run(tier, seed):
 
 
 def replay(case):
+    if isinstance(case, dict) and case.get("disturb"):
+        from ..explore import disturb
+        return disturb.differential('token-streams', disturb.token_battery)
     if case.get("kind") == "result-depends-on-earlier-calls":
         keep = case["keep"]
         if len(case["texts"]) == 3:
